@@ -66,7 +66,7 @@ def pad_chart(ch, rng, target_states):
 
 def make_case(seed, dm='lua', size=None):
     rng = random.Random(seed)
-    ch, hist = C.gen_chart(seed, data=True)
+    ch, hist = C.gen_chart(seed, data=True, errors=False)
     if size: pad_chart(ch, rng, size)
     return ch, hist
 
